@@ -265,8 +265,58 @@ pub fn recreate_plain(c: &[u8]) -> Run<Result<Vec<u8>, String>> {
 // ---------------------------------------------------------------------------------------
 // C01
 
+/// `scan` request for the model driver: the file, and what every stream analysis the scanner made
+/// returned (the model's oracle), with the implementation's container and round trip as answer
+pub fn scan_request(f: &[u8]) -> Option<(String, String)> {
+    let (res, tape) = match guarded(|| vh::expand_with_tape(f)) {
+        Run::Done(x) => x,
+        Run::Panic(_) => return Some((format!("scan {} 0", hex(f)), "panic".into())),
+    };
+    let mut req = format!("scan {} {}", hex(f), tape.len());
+    for p in &tape {
+        match p.accepted {
+            None => req.push_str(&format!(" {}:{}:rej", p.input_len, p.digest)),
+            Some((size, _, _)) => {
+                let r = match guarded(|| preflate_rs::decompress_deflate_stream(&p.input, true, 0)) {
+                    Run::Done(Ok(r)) => r,
+                    _ => return None,
+                };
+                if r.compressed_size != size || size > p.input.len() {
+                    return None;
+                }
+                req.push_str(&format!(
+                    " {}:{}:{}:{}:{}:{}",
+                    p.input_len,
+                    p.digest,
+                    size,
+                    hex(&r.plain_text),
+                    hex(&r.prediction_corrections),
+                    hex(&p.input[..size])
+                ));
+            }
+        }
+    }
+    let resp = match res {
+        Err(_) => "err".to_string(),
+        Ok(c) => {
+            let back = match recreate_plain(&c) {
+                Run::Done(Ok(g)) => format!("{}", fnv64(&g)),
+                Run::Done(Err(_)) => "err".into(),
+                Run::Panic(_) => "panic".into(),
+            };
+            format!("ok {} {} {}", c.len(), fnv64(&c), back)
+        }
+    };
+    Some((req, resp))
+}
+
 pub fn c01_bytes(f: &[u8], label: &str, with_zstd: bool) -> CaseOut {
     let mut out = CaseOut::default();
+    if f.len() <= 6000 && (f.len() > 3 || with_zstd) {
+        if let Some(rq) = scan_request(f) {
+            out.requests.push(rq);
+        }
+    }
     let replay = format!("file {}", hex(f));
     let fail = |sig: String, detail: String| Failure { kind: "oracle".into(), signature: sig, detail: format!("{detail} [{label}]"), replay: replay.clone() };
     match guarded(|| expand_zlib_chunks(f, 0)) {
